@@ -191,6 +191,30 @@ func c13Func(p *an.Prog, r *an.Report, short string, fn *ssa.Function, dir strin
 	flow := an.NewFlow(p)
 	var codec *ssa.Call
 	var bad []string
+	// an exported function that only hands its argument (and possibly the encoding) to one
+	// unexported helper of the same package and returns that helper's results: the helper is
+	// checked in its place, with the wrapper's argument and encoding substituted
+	outer := fn
+	dataPrm := fn.Params[0]
+	recvArg := map[*ssa.Parameter]ssa.Value{}
+	if h, call, j := c13SoleHelper(fn); h != nil {
+		okRet := true
+		for _, ret := range an.Returns(fn) {
+			for i, v := range ret.Results {
+				if !(v == ssa.Value(call) || isExtractOf(v, call, i)) {
+					okRet = false
+				}
+			}
+		}
+		if okRet {
+			for ai, a := range call.Call.Args {
+				if ai < len(h.Params) {
+					recvArg[h.Params[ai]] = a
+				}
+			}
+			fn, dataPrm = h, h.Params[j]
+		}
+	}
 	for _, b := range fn.Blocks {
 		for _, in := range b.Instrs {
 			if an.IsLogPlumbing(in) {
@@ -226,13 +250,19 @@ func c13Func(p *an.Prog, r *an.Report, short string, fn *ssa.Function, dir strin
 		if callee == nil || an.FnPkgPath(callee) != "encoding/"+short || callee.Name() != dir || callee.Signature.Recv() == nil {
 			bad = append(bad, "delegates to "+fmt.Sprint(codec.Call.Value)+" instead of (*Encoding)."+dir)
 		} else {
-			if u, ok := codec.Call.Args[0].(*ssa.UnOp); ok && u.Op == token.MUL {
+			recv := codec.Call.Args[0]
+			if prm, ok := recv.(*ssa.Parameter); ok {
+				if a, ok := recvArg[prm]; ok {
+					recv = a // the encoding handed in by the exported wrapper
+				}
+			}
+			if u, ok := recv.(*ssa.UnOp); ok && u.Op == token.MUL {
 				g, _ = u.X.(*ssa.Global)
 			}
 			if g == nil {
 				bad = append(bad, "receiver is not a package-level encoding")
 			}
-			if len(codec.Call.Args) != 2 || codec.Call.Args[1] != ssa.Value(fn.Params[0]) {
+			if len(codec.Call.Args) != 2 || codec.Call.Args[1] != ssa.Value(dataPrm) {
 				bad = append(bad, "argument is not the parameter passed through unchanged")
 			}
 		}
@@ -264,27 +294,39 @@ func c13Func(p *an.Prog, r *an.Report, short string, fn *ssa.Function, dir strin
 		d, known := encs[g]
 		if !known || !d.ok {
 			bad = append(bad, "uses encoding global "+g.Name()+" which is not a verified I2P encoding")
-		} else if wantPadded := !strings.Contains(fn.Name(), "NoPadding"); d.padded != wantPadded {
+		} else if wantPadded := !strings.Contains(outer.Name(), "NoPadding"); d.padded != wantPadded {
 			bad = append(bad, fmt.Sprintf("uses %s (padded=%v) but the function name promises padded=%v", g.Name(), d.padded, wantPadded))
 		}
 	}
 	r.Check(len(bad) == 0, "C13.D3", key+"/delegation", pos, "exported codec function is guards + one pass-through call of (*Encoding)."+dir+" on an I2P encoding global", bad...)
 
 	// guard region on len(param)
+	fn = outer
 	prm := fn.Params[0]
 	dom := an.IvRange(0, an.PosInf)
-	// the parameter handed unchanged to a guard helper is the same value inside the helper
+	// the parameter handed unchanged to a helper of the same package is the same value inside it
 	same := map[ssa.Value]bool{prm: true}
-	for _, b := range fn.Blocks {
-		for _, in := range b.Instrs {
-			c, ok := in.(*ssa.Call)
-			if !ok || !isGuardHelper(fn, c) {
+	for round := 0; round < 3; round++ {
+		for v := range same {
+			q, ok := v.(*ssa.Parameter)
+			if !ok {
 				continue
 			}
-			callee := c.Call.StaticCallee()
-			for ai, a := range c.Call.Args {
-				if a == ssa.Value(prm) && ai < len(callee.Params) {
-					same[callee.Params[ai]] = true
+			for _, b := range q.Parent().Blocks {
+				for _, in := range b.Instrs {
+					c, ok := in.(*ssa.Call)
+					if !ok {
+						continue
+					}
+					callee := c.Call.StaticCallee()
+					if callee == nil || !an.InLib(callee) || an.FnPkgPath(callee) != an.FnPkgPath(outer) || len(callee.Blocks) == 0 {
+						continue
+					}
+					for ai, a := range c.Call.Args {
+						if a == v && ai < len(callee.Params) {
+							same[callee.Params[ai]] = true
+						}
+					}
 				}
 			}
 		}
@@ -322,6 +364,43 @@ func c13Func(p *an.Prog, r *an.Report, short string, fn *ssa.Function, dir strin
 	// exceed it by guard paths. Sentinel loads are classified below.
 	r.Check(must.Equal(want), "C13.D3", key+"/guards", pos, "length guards reject exactly "+want.String(),
 		"must-reject "+must.String(), "may-reject "+may.String())
+}
+
+// c13SoleHelper: fn's only call (besides len, logging and guard helpers) goes to an unexported
+// function of the same package and passes fn's parameter unchanged as argument j.
+func c13SoleHelper(fn *ssa.Function) (*ssa.Function, *ssa.Call, int) {
+	var only *ssa.Call
+	for _, b := range fn.Blocks {
+		for _, in := range b.Instrs {
+			c, ok := in.(*ssa.Call)
+			if !ok || an.IsLogPlumbing(in) {
+				continue
+			}
+			if bi, ok := c.Call.Value.(*ssa.Builtin); ok && bi.Name() == "len" {
+				continue
+			}
+			if isGuardHelper(fn, c) {
+				continue
+			}
+			if only != nil {
+				return nil, nil, 0
+			}
+			only = c
+		}
+	}
+	if only == nil {
+		return nil, nil, 0
+	}
+	h := only.Call.StaticCallee()
+	if h == nil || !an.InLib(h) || an.FnPkgPath(h) != an.FnPkgPath(fn) || len(h.Blocks) == 0 || h.Signature.Recv() != nil || (h.Object() != nil && h.Object().Exported()) {
+		return nil, nil, 0
+	}
+	for j, a := range only.Call.Args {
+		if a == ssa.Value(fn.Params[0]) && j < len(h.Params) {
+			return h, only, j
+		}
+	}
+	return nil, nil, 0
 }
 
 func isExtractOf(v ssa.Value, call *ssa.Call, idx int) bool {
